@@ -71,15 +71,58 @@ Proof. exact include_equiv_new. Qed.
 Print Assumptions C19_include_equiv_new.
 Theorem C19_include_equiv_override :
   forall d k dp sp, dget Z.eqb d k = Some (PVProps dp) ->
-    do_include d [(k, PVProps sp)] = dset Z.eqb d k (PVProps (dupdate pkey_eqb sp dp)).
+    do_include d [(k, PVProps sp)] = dset Z.eqb d k (PVProps (merge_props sp dp)).
 Proof. exact include_equiv_override. Qed.
 Print Assumptions C19_include_equiv_override.
+(* includes and aliases together: for every canonical key (mass, width, P, ...) the value the entry
+   already has (main file, earlier include) wins over the included file's, in any spelling *)
+Theorem C19_include_main_wins :
+  forall sp dp k,
+    dget pkey_eqb (rename_params (merge_props sp dp)) k
+    = match dget pkey_eqb (rename_params dp) k with
+      | Some v => Some v
+      | None => dget pkey_eqb (rename_params sp) k
+      end.
+Proof. exact include_main_wins. Qed.
+Print Assumptions C19_include_main_wins.
+(* the merge as it was before the repair of _do_include_dict (`s[i].update(d[i])`, model
+   do_include_old) kept the key positions of the included dict, so that a later include's spelling
+   decided which of m0 / mass is renamed last: main `mass: 4` loses against an included `m0: 3` *)
+Theorem C19_include_old_override :
+  forall d k dp sp, dget Z.eqb d k = Some (PVProps dp) ->
+    do_include_old d [(k, PVProps sp)] = dset Z.eqb d k (PVProps (dupdate pkey_eqb sp dp)).
+Proof. exact include_old_override. Qed.
+Print Assumptions C19_include_old_override.
+Theorem C19_include_old_alias_refuted :
+  exists sp dp k v,
+    dget pkey_eqb (rename_params dp) k = Some v /\
+    dget pkey_eqb (rename_params (dupdate pkey_eqb sp dp)) k <> Some v.
+Proof. exact include_old_alias_refuted. Qed.
+Print Assumptions C19_include_old_alias_refuted.
+
+(* the cut removes a chain completely: the decay list of a particle of the loaded model (the state
+   Particle.get_amp reads its running-width L from) holds exactly the decays of the kept chains *)
+Theorem C19_cut_decay_lists :
+  forall chs p d,
+    In d (decays_of_particle chs p) <-> fst d = p /\ exists oc, In oc chs /\ In d (chain_struct oc).
+Proof. exact cut_decay_lists. Qed.
+Print Assumptions C19_cut_decay_lists.
+(* decay_cut before the repair took only the decay without (l,s) out of its mother's list
+   (model decay_table_old): X1 -> K2 D stays although K2 -> B C is forbidden and no chain uses it *)
+Theorem C19_cut_old_phantom_refuted :
+  exists chs d, load_chains phantom_config = Some chs /\ In d (decay_table_old phantom_config)
+                /\ in_some_chain chs d = false.
+Proof. exact cut_old_phantom. Qed.
+Print Assumptions C19_cut_old_phantom_refuted.
 
 (* Not proved (kept visible): the set of loaded chains does not depend on the key order of the
    decay and particle sections.  It is checked on the implementation for every generated
    configuration (permuted copy loaded, chain sets compared), and it is FALSE in the
-   implementation for one corner excluded from the grammar: a slot declared `[]` and also
-   extended through a nested map inside another candidate list. *)
+   implementation for two corners excluded from the grammar: a slot declared `[]` and also
+   extended through a nested map inside another candidate list; and the same decay (same mother
+   candidate, same daughters) declared under two slot keys with different options or daughter
+   order (options of the last key, daughter order of the first: open finding, fixed reproducer in
+   harness/props/c19.py). *)
 Definition C19_key_order_irrelevant_general : Prop :=
   forall c c' : config,
     Permutation (c_decay c) (c_decay c') -> Permutation (c_particle c) (c_particle c') ->
